@@ -594,11 +594,16 @@ def _collect_mangled_names(condition: Callable[..., Any]) -> Mapping[str, str]:
 
     # The compiler mangles the private names only in the code written in a class body. The class is one
     # of the scopes enclosing the condition, so its name is listed in the qualified name of the condition.
-    prefixes = set()  # type: Set[str]
-    for scope_name in getattr(condition, "__qualname__", "").split("."):
+    #
+    # The innermost class is the one which counts for the compiler, so we list the scopes from the innermost to
+    # the outermost one.
+    prefixes = []  # type: List[str]
+    for scope_name in reversed(getattr(condition, "__qualname__", "").split(".")):
         stripped = scope_name.lstrip("_")
         if scope_name.isidentifier() and len(stripped) > 0:
-            prefixes.add("_" + stripped)
+            prefix = "_" + stripped
+            if prefix not in prefixes:
+                prefixes.append(prefix)
 
     if len(prefixes) == 0:
         return mangled
@@ -616,8 +621,8 @@ def _collect_mangled_names(condition: Callable[..., Any]) -> Mapping[str, str]:
         names.update(a_code.co_freevars)
         names.update(a_code.co_cellvars)
 
-    for name in sorted(names):
-        for prefix in prefixes:
+    for prefix in prefixes:
+        for name in sorted(names):
             if not name.startswith(prefix + "__"):
                 continue
 
